@@ -2251,7 +2251,32 @@ pub mod gen {
                 }
             }
         }
-        Program { scenario: "rxsim", cfg: cfg(slots, 64, 64, slots + 2, &tbl), ops }
+        // one run in five lays consecutive packets back to back in frames that are walked by consumed lengths
+        if rng.chance(1, 5) {
+            let mut out: Vec<Op> = vec![];
+            let mut i = 0;
+            while i < ops.len() {
+                if ops[i].name == "feed" {
+                    let mut fr: Vec<u8> = vec![];
+                    let k = rng.usize_in(2, 5);
+                    let mut j = i;
+                    while j < ops.len() && j < i + k && ops[j].name == "feed" {
+                        fr.extend_from_slice(ops[j].get_h("hex"));
+                        j += 1;
+                    }
+                    fr.extend(std::iter::repeat(0u8).take(rng.usize_in(0, 6)));
+                    out.push(Op::new("walk").h("hex", fr));
+                    i = j;
+                } else {
+                    out.push(ops[i].clone());
+                    i += 1;
+                }
+            }
+            ops = out;
+        }
+        // storage: ample, or scarce (start packets are then refused for lack of storage, which clears the label)
+        let nbuf = if rng.chance(1, 5) { rng.usize_in(0, 1) } else { slots + 2 };
+        Program { scenario: "rxsim", cfg: cfg(slots, 64, 64, nbuf, &tbl), ops }
     }
 
     /// receiver state prefix for C05 / C16: returns ops
